@@ -136,6 +136,14 @@ func init() {
 		ws := a[0].U64s()
 		return L(I32s(bitmap.IndexRank64(ws)), I32s(bitmap.IndexRank64(ws, true)), I32s(bitmap.IndexRank128(ws)))
 	}
+	Exec["bitmap.Rank/complement"] = func(a []V) string {
+		ws := a[0].U64s()
+		cs := make([]uint64, len(ws))
+		for k, w := range ws {
+			cs[k] = ^w
+		}
+		return L(c01Query(ws, a[1].Int(), a[2].I32()), c01Query(cs, a[1].Int(), a[2].I32()))
+	}
 	Exec["bitmap.IndexRank/rle"] = func(a []V) string {
 		ws := c01Expand(a[0])
 		return L(I32s(bitmap.IndexRank64(ws)), I32s(bitmap.IndexRank64(ws, true)), I32s(bitmap.IndexRank128(ws)))
@@ -430,6 +438,22 @@ func genC01Wide(g *Gen) {
 			g.Stat("concat")
 			g.Do("bitmap.Rank/concat", L(U64s(wa), U64s(wb), Int(f), Int(i)), key)
 		}
+	}
+
+	// (W4b) rank0: a bitmap and its complement
+	for k := 0; k < g.N(200, 4000); k++ {
+		n := g.R.Range(1, 12)
+		ws := g.R.Words(n)
+		i := g.R.Intn(64 * n)
+		if g.R.Intn(3) == 0 {
+			i = 64*g.R.Intn(n) + g.R.Pick(0, 63)
+		}
+		key := ""
+		if rankKey(ws, i) != "" {
+			key = fmt.Sprintf("compl/right%d", (i>>6)&1)
+		}
+		g.Stat("complement")
+		g.Do("bitmap.Rank/complement", L(U64s(ws), Int(g.R.Intn(3)), Int(i)), key)
 	}
 
 	// (W5) side-by-side indexes of small bitmaps: exhaustive lengths 0..12, then random
